@@ -38,7 +38,11 @@ func ParseChunk(arg string) (prefix string, i, n int) {
 // attributed to the case, and resuming after a crashed case when told to.
 func RunCases(c *Ctx, prop string, cases []Case, chunk, chunks int) {
 	for idx, cs := range cases {
-		if chunks > 1 && idx%chunks != chunk {
+		if ReplayOnly != nil {
+			if len(ReplayOnly) == 0 || cs.ID != ReplayOnly[0] {
+				continue
+			}
+		} else if chunks > 1 && idx%chunks != chunk {
 			continue
 		}
 		if idx <= c.Spec.ResumeAfter {
